@@ -9,6 +9,7 @@ package main
 import (
 	"bufio"
 	stdx509 "crypto/x509"
+	"encoding/asn1"
 	"fmt"
 	"os"
 	"path/filepath"
@@ -128,13 +129,25 @@ func subThresholds(out string, seed uint64, tier string, arg string) {
 		}
 		doRC(b)
 	}
-	// --- given-name lints
-	regG, err := g.Filter(lint.FilterOptions{IncludeNames: []string{"e_subject_given_name_max_length", "w_subject_given_name_recommended_max_length"}})
-	if err == nil {
+	// --- given-name and surname lints (the same two limits, 32768 and 64 characters, on two attributes)
+	for _, attr := range []struct {
+		e, w string
+		oid  asn1.ObjectIdentifier
+		get  func(o *Obj) []string
+	}{
+		{"e_subject_given_name_max_length", "w_subject_given_name_recommended_max_length", oidGN, func(o *Obj) []string { return o.Cert.Subject.GivenName }},
+		{"e_subject_surname_max_length", "w_subject_surname_recommended_max_length", asn1.ObjectIdentifier{2, 5, 4, 4}, func(o *Obj) []string { return o.Cert.Subject.Surname }},
+	} {
+		attr := attr
+		regG, err := g.Filter(lint.FilterOptions{IncludeNames: []string{attr.e, attr.w}})
+		if err != nil {
+			rep.count("name-length-lints-missing:" + attr.e)
+			continue
+		}
 		doGN := func(vals []string, tag byte) {
 			rdns := [][]atv{{{oidC, 0x13, "US"}}}
 			for _, v := range vals {
-				rdns = append(rdns, []atv{{oidGN, tag, v}})
+				rdns = append(rdns, []atv{{attr.oid, tag, v}})
 			}
 			rdns = append(rdns, []atv{{oidCN, 0x0C, "n.example.com"}})
 			der, err := BuildCert(CertSpec{Subject: pkixName("placeholder"), DNS: []string{"n.example.com"}})
@@ -147,27 +160,34 @@ func subThresholds(out string, seed uint64, tier string, arg string) {
 				return
 			}
 			cd.tbs.Kids[4+cd.off] = sn
-			o := parseObj("cert", "kit-givenname", cd.Bytes())
+			o := parseObj("cert", "kit-namelength", cd.Bytes())
 			if o == nil {
-				rep.count("kit-rejected-by-parser:givenname")
+				rep.count("kit-rejected-by-parser:namelength")
 				return
 			}
 			rs, p := lintObj(o, regG)
 			if p != "" || rs == nil {
 				return
 			}
-			a, b := rs.Results["e_subject_given_name_max_length"], rs.Results["w_subject_given_name_recommended_max_length"]
+			a, b := rs.Results[attr.e], rs.Results[attr.w]
 			if a == nil || b == nil || a.Status < lint.Pass || b.Status < lint.Pass {
-				rep.count("givenname:not-both-ran")
+				rep.count("namelength:not-both-ran")
 				return
 			}
+			// the property itself, on the real code: an error from the higher limit comes with a finding from the lower one
+			if a.Status == lint.Error && b.Status == lint.Pass {
+				rep.violate(Violation{"C20", fmt.Sprintf("%s reports error while %s passes on the same certificate (value of %d octets)", attr.e, attr.w, len(strings.Join(vals, ""))), "threshold:" + attr.e,
+					replayOf(o, map[string]interface{}{"lints": []string{attr.e, attr.w}})})
+			}
 			// the model is asked about what the parser hands the lints
-			emit("thr-gn\t"+hexList(o.Cert.Subject.GivenName), st(rs.Results, "e_subject_given_name_max_length")+","+st(rs.Results, "w_subject_given_name_recommended_max_length"))
+			emit("thr-gn\t"+hexList(attr.get(o)), st(rs.Results, attr.e)+","+st(rs.Results, attr.w))
 		}
+		wide := "\U00020000" // four octets
 		for _, n := range []int{1, 63, 64, 65} {
 			doGN([]string{strings.Repeat("n", n)}, 0x0C)
 			doGN([]string{strings.Repeat("é", n)}, 0x0C)
 			doGN([]string{strings.Repeat("€", n)}, 0x0C)
+			doGN([]string{strings.Repeat(wide, n)}, 0x0C)
 			doGN([]string{strings.Repeat("\xff", n)}, 0x0C)
 			doGN([]string{strings.Repeat("n", n)}, 0x13)
 			doGN([]string{"ok", strings.Repeat("n", n)}, 0x0C)
@@ -175,6 +195,19 @@ func subThresholds(out string, seed uint64, tier string, arg string) {
 		for _, n := range []int{32767, 32768, 32769} {
 			doGN([]string{strings.Repeat("n", n)}, 0x0C)
 			doGN([]string{strings.Repeat("é", n)}, 0x0C)
+		}
+		// mixed widths: k characters of one width at the front (or at the back) of a value of n characters of another —
+		// a shortcut that measures a prefix, or octets instead of characters, is exact on uniform strings only
+		for _, k := range []int{63, 64, 65} {
+			for _, n := range []int{64, 65, 66, 130, 32768, 32769, 33000} {
+				if n < k {
+					continue
+				}
+				for _, w := range []string{wide, "€", "é"} {
+					doGN([]string{strings.Repeat(w, k) + strings.Repeat("n", n-k)}, 0x0C)
+					doGN([]string{strings.Repeat("n", n-k) + strings.Repeat(w, k)}, 0x0C)
+				}
+			}
 		}
 	}
 	rep.write(filepath.Join(out, "report.json"))
